@@ -189,6 +189,12 @@ def configs(tier):
     # cancel requests at every point (cancel-time checksum, disposition)
     for mode, disp, cks in itertools.product(("ack", "unack"), (False, True), ("crc32", "mod")):
         add(mode=mode, closure=True, size=2 * L + 1, link="ff", cancels=1, disposition=disp, cks=cks)
+    # fault handler codes other than the defaults (abandon / ignore) on the paths that declare faults
+    for code in ("abandon", "ignore"):
+        add(mode="unack", closure=True, size=2 * L + 1, link="k", K=1, kinds=("drop",), check_limit=1, faults_d={"FILE_CHECKSUM_FAILURE": code, "CHECK_LIMIT_REACHED": code})
+        add(mode="ack", nak="imm", size=L + 1, link="k", K=2, kinds=("drop",), ack_limit=2, nak_limit=1, faults_d={"NAK_LIMIT_REACHED": code})
+    add(mode="ack", nak="def", size=L + 1, link="k", K=1, kinds=("drop",), ack_limit=1, nak_limit=2, faults_d={"POSITIVE_ACK_LIMIT_REACHED": "abandon"},
+        faults_s={"POSITIVE_ACK_LIMIT_REACHED": "abandon"})
     if tier == "thorough":
         add(mode="ack", nak="imm", size=2 * L + 1, link="k", K=2, kinds=("drop", "dup", "delay"), ack_limit=3, nak_limit=3)
         for mode in ("ack", "unack"):
